@@ -362,8 +362,38 @@ def ruleApplies (r : Rule α) (elems : List Elem) : Bool :=
 
 /-! ## setStyling (svg.go:691-712) -/
 
+/-! ## specificity and the order in which matching rules apply (svg.go cssRule.specificity, setStyling; aecc30a) -/
+
+/-- specificity of a selector: id selectors, then class/attribute selectors, then type names -/
+def specificity (s : Selector) : Nat :=
+  s.foldl (fun n nd =>
+    nd.attrs.foldl (fun m a => m + (if a.attr == "id" && a.op == 1 then 2 ^ 20 else 2 ^ 10))
+      (n + (if nd.typ != "" && nd.typ != "*" then 1 else 0))) 0
+
+/-- the highest specificity among the selectors of the rule that apply to the element (`none`: the rule does not apply) -/
+def ruleSpec (r : Rule α) (elems : List Elem) : Option Nat :=
+  r.selectors.foldl (fun best s =>
+    if ruleApplies (⟨[s], r.props⟩ : Rule α) elems then
+      match best with
+      | none => some (specificity s)
+      | some b => some (max b (specificity s))
+    else best) none
+
+/-- `x` precedes everything in the list: it goes in front of the first element whose key is not smaller -/
+def insFront {β : Type} (key : β → Nat) (x : β) : List β → List β
+  | [] => [x]
+  | y :: ys => if key x ≤ key y then x :: y :: ys else y :: insFront key x ys
+
+/-- stable sort by key: equal keys keep their order of appearance -/
+def stableSort {β : Type} (key : β → Nat) (l : List β) : List β := l.foldr (insFront key) []
+
+/-- the rules that apply to the element, with their specificity, in order of appearance -/
+def matching (rules : List (Rule α)) (elems : List Elem) : List (Nat × Rule α) :=
+  rules.filterMap (fun r => (ruleSpec r elems).map (fun n => (n, r)))
+
+/-- the matching rules apply in order of specificity and, for equal specificity, of appearance (`sort.SliceStable`) -/
 def applyRules (p : P α) (rules : List (Rule α)) : P α :=
-  rules.foldl (fun p r => if ruleApplies r p.elems then setProps o p r.props else p) p
+  (stableSort (fun nr => nr.1) (matching rules p.elems)).foldl (fun p nr => setProps o p nr.2.props) p
 
 /-- first pass: presentation attributes (lowest precedence) -/
 def applyPlain (p : P α) (a : Attr α) : P α :=
